@@ -147,9 +147,11 @@ ScName(s, i) == s.cs.scens[Cur(s, i).sc].name
 
 Sample(s, i, proto, err) == [sc |-> ScName(s, i), step |-> Step(s, i).name, proto |-> proto, err |-> err]
 
-\* the step failed (preprocessor / template / transport / body / postprocessor): reportErr, return err
-FailF(s, i) ==
-    LET smp == Sample(s, i, 0, TRUE)
+\* the step failed (preprocessor / template / transport / body / postprocessor): reportErr, return err.
+\* proto is the status that was RECEIVED (a failure after the response arrived: failed assertion, failing
+\* extractor, unreadable body) and 0 when there was no response (preprocessor / template / transport error)
+FailF(s, i, proto) ==
+    LET smp == Sample(s, i, proto, TRUE)
         last == Cur(s, i).pos >= Len(Cur(s, i).steps)
         goOn == ~StopOnFail /\ ~last      \* negative control: carry on with the next step
     IN [s EXCEPT !.samples = Append(@, smp),
@@ -203,7 +205,7 @@ PreF(s, i) ==
         vs1  == IF pre[2] THEN [vs0 EXCEPT ![nm].hasPre = TRUE, ![nm].row = pre[3]] ELSE vs0
         rnd  == Render(vs1, d.use)
         s2   == [s1 EXCEPT !.inst[i].vs = vs1]
-    IN IF ~pre[1] \/ ~rnd[1] THEN FailF(s2, i)
+    IN IF ~pre[1] \/ ~rnd[1] THEN FailF(s2, i, 0)
        ELSE [s2 EXCEPT !.inst[i].pc = "send",
                        !.inst[i].pend = [val |-> rnd[2], at |-> d.use.at, status |-> 0, k |-> 0,
                                          row |-> IF pre[2] THEN pre[3] ELSE NoVal]]
@@ -216,7 +218,7 @@ SendF(s, i) ==
         hit == sc.at = k1
         entry == [req |-> Step(s, i).name, val |-> me.pend.val, at |-> me.pend.at, gap |-> me.lastSleep]
         s1 == [s EXCEPT !.k = k1, !.log = Append(@, entry)]
-    IN IF hit /\ sc.kind = "transport" THEN FailF(s1, i)
+    IN IF hit /\ sc.kind = "transport" THEN FailF(s1, i, 0)
        ELSE [s1 EXCEPT !.inst[i].pc = "post",
                        !.inst[i].pend.status = IF hit /\ sc.kind = "status" THEN 418 ELSE 200,
                        !.inst[i].pend.k = k1]
@@ -233,7 +235,7 @@ PostF(s, i) ==
                  [] d.cap = "jsonnum" -> Val("n", me.pend.k)     \* the JSON number 1000000 + k
         assertFails == d.assert /\ me.pend.status # 200
         last == me.pos >= Len(me.steps)
-    IN IF assertFails THEN FailF(s, i)
+    IN IF assertFails THEN FailF(s, i, me.pend.status)
        ELSE [s EXCEPT !.samples = Append(@, Sample(s, i, me.pend.status, FALSE)),
                       !.inst[i] = [@ EXCEPT !.vs[nm].hasPost = TRUE, !.vs[nm].tok = tok,
                                             !.lastSleep = Step(s, i).sleep,
